@@ -12,6 +12,8 @@ pub mod c11;
 pub mod c12;
 pub mod c13;
 pub mod c14;
+pub mod c15;
+pub mod c16;
 pub mod c19;
 pub mod c20;
 
@@ -52,6 +54,8 @@ pub fn registry(id: &str) -> Option<Entry> {
         "C12" => Entry { run: c12::run, replay: c12::replay, rule: "the complete finite set of 19 constants, 19 FloatConst accessors and 6 associated constants, each compared with the correctly rounded double-double of a 640-bit interval enclosure of the mathematical constant (resp. with the value derived from the exact validity predicate); plus one state per operand for the two angle conversions, judged against an interval enclosure of x*180/pi", assumptions: FN_ASSUME },
         "C13" => Entry { run: c13::run, replay: c13::replay, rule: "state = operand (pair) or (base, exponent); transition = sqrt / cbrt / hypot / powi and the Pow impls; roots judged by exact squaring/cubing inequalities in arbitrary-precision integers, powers against an interval enclosure of x^n by binary powering; exact-point, sign, identity and no-panic clauses checked literally", assumptions: FN_ASSUME },
         "C14" => Entry { run: c14::run, replay: c14::replay, rule: "state = argument (pair); transition = exp / exp2 / exp_m1 / powf on the real crate; judged against interval enclosures of e^x, 2^x, e^x-1, exp(y ln x) with the stated relative tolerances (three-valued decision with precision escalation), plus the exact-point, threshold, sign and no-panic clauses literally", assumptions: FN_ASSUME },
+        "C15" => Entry { run: c15::run, replay: c15::replay, rule: "state = argument (pair); transition = ln / log2 / log10 / ln_1p / log; judged against interval enclosures of the logarithms (exact differences near 1) with the stated mixed tolerances, the bit-identity clauses against the other spelling, exact points and domain errors literally", assumptions: FN_ASSUME },
+        "C16" => Entry { run: c16::run, replay: c16::replay, rule: "state = argument; transition = sin, cos, sin_cos, tan on the real crate; judged against interval enclosures computed with a 600+ bit reduction by pi/2", assumptions: FN_ASSUME },
         "C19" => Entry { run: c19::run, replay: c19::replay, rule: "state = ordered operand pair; transition = one of the five spellings of %, div_euclid, rem_euclid; judged against the exact truncated / floored integer quotient (binary long division in the long accumulator) with the stated tolerance and near-integer proviso", assumptions: BASE_ASSUME },
         "C20" => Entry { run: c20::run, replay: c20::replay, rule: "text: state = one valid value, transitions = 54 format calls (3 traits x {plain,+} x 9 precisions) compared with std's f64 renderings and parsed back; serde: state = one environment script (sequence or map the data format offers the visitor, built with serde::de::value deserializers) or one valid value serialised through a recording Serializer; oracle = 20-line acceptance predicate using the exact validity test", assumptions: &["rustc/LLVM, IEEE-754 hardware", "std's f64 formatting and parsing are correct (used as the text oracle)", "serde::de::value::{SeqDeserializer, MapDeserializer} behave as a faithful data format", "tfref::big exact validity predicate"] },
         _ => return None,
